@@ -116,39 +116,41 @@ type vHistory struct {
 
 // ---------------------------------------------------------------- the driver
 type vDriver struct {
-	t        *testing.T
-	ctx      context.Context
-	p        *Processor
-	d        *db.Database
-	dir      string
-	sendC    chan []byte
-	obsvC    chan *gossipv1.SignedObservation
-	reqC     chan *gossipv1.ObservationRequest
-	own      *ecdsa.PrivateKey
-	pending  []*gossipv1.SignedObservation // spawned own observations not yet delivered
-	T        int64                         // virtual seconds
-	fs       map[string]int64              // digest -> virtual first-seen
-	lr       map[string]int64              // digest -> virtual last retry
-	ids      map[string]vaa.VAAID          // every VAA id the history mentions
-	dbSnap   map[string]string
-	h        *vHistory
-	keccakT  map[string]string
-	signT    map[string]string
-	recT     map[string]string
-	sets     []*common.GuardianSet // learned so far (monitor)
-	localGS  map[string]*common.GuardianSet // digest -> set in force at the last accepted local observation / injection
-	localIdx map[string]bool                // digest -> came from a chain observation (index must match)
-	accepted map[string]map[ethcommon.Address]bool // monitor: valid member observations delivered per digest (current lifetime)
-	pubCount map[string]int
-	sawLocal map[string]bool
-	bodyOf   map[string]string // digest -> hex body of the own observation
-	dueMiss  map[string]int    // digest -> consecutive ticks at which a retry was due and did not happen
-	lastObs  *gossipv1.SignedObservation
-	foReal   map[string]time.Time // digest -> firstObserved as left by the previous step (real clock)
-	txOf     map[string]string    // digest -> hex tx hash of the chain message the node observed
-	chainOf  map[string]uint32    // digest -> emitter chain of that message
-	dbDown   bool                 // the store was closed on purpose (fault injection)
-	fillReq  bool                 // fault injection: the outbound re-observation queue is full when the tick runs
+	t           *testing.T
+	ctx         context.Context
+	p           *Processor
+	d           *db.Database
+	dir         string
+	sendC       chan []byte
+	obsvC       chan *gossipv1.SignedObservation
+	reqC        chan *gossipv1.ObservationRequest
+	own         *ecdsa.PrivateKey
+	pending     []*gossipv1.SignedObservation // spawned own observations not yet delivered
+	T           int64                         // virtual seconds
+	fs          map[string]int64              // digest -> virtual first-seen
+	lr          map[string]int64              // digest -> virtual last retry
+	ids         map[string]vaa.VAAID          // every VAA id the history mentions
+	dbSnap      map[string]string
+	h           *vHistory
+	keccakT     map[string]string
+	signT       map[string]string
+	recT        map[string]string
+	sets        []*common.GuardianSet                 // learned so far (monitor)
+	localGS     map[string]*common.GuardianSet        // digest -> set in force at the last accepted local observation / injection
+	localIdx    map[string]bool                       // digest -> came from a chain observation (index must match)
+	accepted    map[string]map[ethcommon.Address]bool // monitor: valid member observations delivered per digest (current lifetime)
+	pubCount    map[string]int
+	sawLocal    map[string]bool
+	bodyOf      map[string]string // digest -> hex body of the own observation
+	dueMiss     map[string]int    // digest -> consecutive ticks at which a retry was due and did not happen
+	lastObs     *gossipv1.SignedObservation
+	foReal      map[string]time.Time // digest -> firstObserved as left by the previous step (real clock)
+	txOf        map[string]string    // digest -> hex tx hash of the chain message the node observed
+	chainOf     map[string]uint32    // digest -> emitter chain of that message
+	dbDown      bool                 // the store was closed on purpose (fault injection)
+	fillReq     bool                 // fault injection: the outbound re-observation queue is full when the tick runs
+	validQuorum map[string]bool      // digests for which a locally assembled VAA carrying a valid quorum of the applicable set was published / stored (the harness's own verdict)
+	lied        map[string]bool
 }
 
 // own-signature loopbacks that never arrived (a mutated tree may drop them): after the first misses stop waiting long
@@ -169,7 +171,7 @@ func vNewDriver(t *testing.T, root context.Context, own *ecdsa.PrivateKey, govCh
 		fs: map[string]int64{}, lr: map[string]int64{}, ids: map[string]vaa.VAAID{}, dbSnap: map[string]string{},
 		keccakT: map[string]string{}, signT: map[string]string{}, recT: map[string]string{},
 		localGS: map[string]*common.GuardianSet{}, localIdx: map[string]bool{}, accepted: map[string]map[ethcommon.Address]bool{},
-		pubCount: map[string]int{}, sawLocal: map[string]bool{}, bodyOf: map[string]string{}, dueMiss: map[string]int{}, foReal: map[string]time.Time{}, txOf: map[string]string{}, chainOf: map[string]uint32{}}
+		validQuorum: map[string]bool{}, lied: map[string]bool{}, pubCount: map[string]int{}, sawLocal: map[string]bool{}, bodyOf: map[string]string{}, dueMiss: map[string]int{}, foReal: map[string]time.Time{}, txOf: map[string]string{}, chainOf: map[string]uint32{}}
 	dr.p = NewProcessor(root, d, nil, nil, dr.sendC, dr.obsvC, dr.reqC, nil, nil, &ecdsasigner.ECDSAPrivateKey{Value: own},
 		common.NewGuardianSetState(nil), reporter.EventListener(zap.NewNop()), nil, govChain, govAddr)
 	dr.h = &vHistory{K: "hist", ID: id, Own: hex.EncodeToString(crypto.PubkeyToAddress(own.PublicKey).Bytes()), OwnKey: hex.EncodeToString(crypto.FromECDSA(own)), GovCh: uint16(govChain),
@@ -518,6 +520,10 @@ func (dr *vDriver) monPublished(b []byte, how string, op vOp) {
 		}
 		if !dr.verifiesAgainst(v, gs) {
 			dr.h.Mon = append(dr.h.Mon, "C01: locally assembled VAA ("+how+") does not carry a valid quorum of the set in force at observation time")
+		} else {
+			dr.validQuorum[d] = true
+		}
+		if !dr.verifiesAgainst(v, gs) {
 		} else if dr.localIdx[d] && v.GuardianSetIndex != gs.Index {
 			dr.h.Mon = append(dr.h.Mon, "C01: locally assembled VAA names another set than the one whose members signed")
 		}
@@ -833,6 +839,11 @@ func (dr *vDriver) opCleanup() bool {
 			if b.lrAge >= 0 && b.lrAge < 300 {
 				dr.h.Mon = append(dr.h.Mon, "C14: own observation re-broadcast less than five minutes after the previous retry")
 			}
+		}
+		if b.hasMsg && b.submitted && !dr.validQuorum[dg] && !dr.lied[dg] && ok {
+			// the harness's own verdict, not the entry's flag: nothing carrying a valid quorum of the applicable set was ever published for this digest
+			dr.lied[dg] = true
+			dr.h.Mon = append(dr.h.Mon, "C14: a signed entry is treated as completed (no further retries, dropped after an hour) although no VAA carrying a valid quorum of its guardian set was published for its message")
 		}
 		if b.hasMsg && !b.submitted && !b.inDB && b.retries < 14400 && !alive && ok {
 			dr.h.Mon = append(dr.h.Mon, "C14: a signed, still pending entry was discarded before its retry budget was spent although no quorum VAA is stored")
